@@ -25,7 +25,8 @@ fn all_values() -> Vec<(String, AvailableValue)> {
     let ints = [0, 1, -1, 5, i32::MIN, i32::MAX, 1024, -2048];
     let regs = [0u8, 2, 10, 31];
     let labels = ["_", "x", "main", "a_b_1", "L1"];
-    let csrs = [0u32, 5, 0x40, 0xC00, 0xC82];
+    // (numeric CSR operands are not limited to 12 bits: numbers that agree in their low 12 bits are different CSRs)
+    let csrs = [0u32, 5, 0x40, 0xC00, 0xC82, 0xFFF, 0x1000, 0x1005, 0x1040, 0x2040, 0x8000_0040, u32::MAX];
     let mut v = Vec::new();
     for i in ints {
         v.push((format!("Constant({i})"), AvailableValue::Constant(i)));
@@ -58,7 +59,7 @@ fn all_locations() -> Vec<(String, MemoryLocation)> {
     for o in [0, 4, -4, 1, -1, 2047, -2048, i32::MAX, i32::MIN + 1, i32::MIN] {
         v.push((format!("StackOffset({o})"), MemoryLocation::StackOffset(o)));
     }
-    for c in [0u32, 5, 0x40, 0xC82] {
+    for c in [0u32, 5, 0x40, 0xC82, 0xFFF, 0x1000, 0x1005, 0x1040, 0x2040, 0x8000_0040, u32::MAX] {
         v.push((format!("CsrRegister({c})"), MemoryLocation::CsrRegister(CsrImm::new(c))));
         for o in [0, 8, -8, i32::MIN, i32::MAX] {
             v.push((format!("CsrRegisterValueOffset({c},{o})"), MemoryLocation::CsrRegisterValueOffset(CsrImm::new(c), o)));
